@@ -73,7 +73,7 @@ def handleHol (toks : List String) : String :=
 /-- does the endpoint kind run the handshake on its accept loop?  http endpoints use net/http's
     goroutine per request -/
 def kindSpawned : String → Option Bool
-  | "tcp" | "tcptls" | "starttls" => some Gen.socketAcceptSpawned
+  | "tcp" | "tcptls" | "starttls" | "unix" => some Gen.socketAcceptSpawned
   | "udp" => some Gen.packetAcceptSpawned
   | "dns" => some true   -- miekg/dns serves every datagram on its own goroutine
   | "ws" | "wss" => some true
